@@ -195,6 +195,25 @@ func (r *Run) Report(sig map[string]string, kase interface{}, detail string) boo
 	return true
 }
 
+// IsKnown reports whether sig matches a "known:" line (without counting a hit).
+func (r *Run) IsKnown(sig map[string]string) bool {
+	r.mu.Lock()
+	defer r.mu.Unlock()
+	for _, k := range r.known {
+		ok := true
+		for mk, mv := range k.Match {
+			if sig[mk] != mv {
+				ok = false
+				break
+			}
+		}
+		if ok {
+			return true
+		}
+	}
+	return false
+}
+
 // Violations returns the number of distinct new violations so far.
 func (r *Run) Violations() int {
 	r.mu.Lock()
